@@ -1752,7 +1752,12 @@ func (s *BgpServer) handleFSMMessage(peer *peer, e *fsmMsg) {
 							err := s.mgmtOperation(func() error {
 								peer.fsm.logger.Info("LLGR restart timer expired", slog.String("Family", family.String()), slog.Any("Duration", t))
 
-								s.dropAdjRIBIn(peer, []bgp.Family{family})
+								// only the routes still marked stale are given up: once the
+								// session is re-established, routes the peer has announced
+								// again are fresh and belong to the live session.
+								dropped := peer.adjRibIn.DropStale([]bgp.Family{family})
+								s.notifyAdjInWithdrawWatcher(peer, dropped)
+								s.propagateUpdate(peer, dropped)
 
 								// when all llgr restart timer expired, stop PeerRestarting
 								if peer.llgrRestartTimerExpired(family) {
